@@ -2,6 +2,7 @@
 # Build the whole framework offline from files on disk: regenerate gen/*.v from
 # /repo, full .vo build of the Coq development, extraction + OCaml drivers.
 cd "$(dirname "$0")"
-export PYTHONPATH=/repo PYTHONHASHSEED=0 BQSKIT_VERIF=1 OMP_NUM_THREADS=1 OPENBLAS_NUM_THREADS=1
+export VERIF_REPO=${VERIF_REPO:-/repo}
+export PYTHONPATH=$VERIF_REPO PYTHONHASHSEED=0 BQSKIT_VERIF=1 OMP_NUM_THREADS=1 OPENBLAS_NUM_THREADS=1
 ulimit -s unlimited 2>/dev/null
 exec /venv/bin/python harness/setup_all.py
